@@ -9,7 +9,7 @@ from checks import when_common as wc
 
 
 def main(ck):
-    wc.run_check(ck, "C10", "h_c10", 6, "props/Properties_C10.v", quick_exhaustive=("vecUval",))
+    wc.run_check(ck, "C10", "h_c10", 6, "props/Properties_C10.v", quick_exhaustive=("vecUval",), shared_parts=(3, 4, 5), shared_sets=("P10", "S10"))
 
 
 def replay(ck, path):
